@@ -554,6 +554,11 @@ def rule_builtin(ctx, ts):
         if up is None or tb is None:
             raise AnalysisError("anchor missing: update_from_builtin / _to_builtin_impl")
         dest, src = (a.arg for a in up.args.args[:2])
+        # steps moved into private module-level procedures are judged where they are called
+        up = pyfront.inline_procedures(up, {k_: v_ for k_, v_ in fns.items() if k_.startswith("_")})
+        # the working copy of the source (`source = dict(source)` / `remaining = dict(source)`)
+        srcs = {src} | {tg_.id for a_ in ast.walk(up) if isinstance(a_, ast.Assign) and ast.unparse(a_.value) in (f"dict({src})", f"{src}.copy()", f"{{**{src}}}")
+                        for tg_ in a_.targets if isinstance(tg_, ast.Name)}
         # the field loop
         fields_names = {tg.id for a in ast.walk(up) if isinstance(a, ast.Assign) and ast.unparse(a.value).endswith(".fields_except_padding")
                         for tg in a.targets if isinstance(tg, ast.Name)}
@@ -578,11 +583,19 @@ def rule_builtin(ctx, ts):
                        "" if in_handler else f"a supplied value is skipped under {terms}: e.g. an empty dict for a field-less composite (the selected union "
                        "variant) is dropped and the destination keeps its previous variant", st.lineno)
         tries = [x for x in lp.body if isinstance(x, ast.Try)]
-        ok = len(tries) == 1 and any(isinstance(c, ast.Call) and isinstance(c.func, ast.Attribute) and c.func.attr == "pop" and ast.unparse(c.func.value) == src
-                                     and [ast.unparse(a) for a in c.args] == [f"{fv}.name"] for c in ast.walk(tries[0]))
+        body_ = lp.body
+        # the other way to skip a field the source does not mention: `if f.name in source: <handle>` with nothing else in the loop
+        member = [x for x in lp.body if isinstance(x, ast.If) and not x.orelse and ast.unparse(x.test) in {f"{fv}.name in {s_}" for s_ in srcs}]
+        if not tries and len(member) == 1 and all(x is member[0] or (isinstance(x, ast.Expr) and isinstance(x.value, ast.Constant)) for x in lp.body):
+            body_ = member[0].body
+            ok = any(isinstance(c, ast.Call) and isinstance(c.func, ast.Attribute) and c.func.attr == "pop" and ast.unparse(c.func.value) in srcs
+                     and [ast.unparse(a) for a in c.args][:1] == [f"{fv}.name"] for st_ in body_ for c in ast.walk(st_))
+        else:
+            ok = len(tries) == 1 and any(isinstance(c, ast.Call) and isinstance(c.func, ast.Attribute) and c.func.attr == "pop" and ast.unparse(c.func.value) in srcs
+                                         and [ast.unparse(a) for a in c.args] == [f"{fv}.name"] for c in ast.walk(tries[0]))
         ctx.ob(R, t.rel, "update_from_builtin: the value is taken with source.pop(f.name)", ok, "", lp.lineno)
         # kind dispatch: each branch applies the value
-        chain = [x for x in lp.body if isinstance(x, ast.If) and "isinstance(" in ast.unparse(x.test)]
+        chain = [x for x in body_ if isinstance(x, ast.If) and "isinstance(" in ast.unparse(x.test)]
         ok = len(chain) == 1
         if ok:
             cur = chain[0]
@@ -594,6 +607,12 @@ def rule_builtin(ctx, ts):
                     cur = cur.orelse[0]
                 else:
                     closed = any(isinstance(x, (ast.Assert, ast.Raise)) for x in cur.orelse)
+                    # `else: assert isinstance(t, X), ...; <handle X>`: the last kind, named by the assertion
+                    for x in cur.orelse:
+                        if isinstance(x, ast.Assert) and "isinstance(" in ast.unparse(x.test):
+                            applies_ = any(isinstance(c, ast.Call) and isinstance(c.func, ast.Name) and c.func.id in ("set_attribute", "update_from_builtin")
+                                           for b in cur.orelse for c in ast.walk(b))
+                            kinds.append((ast.unparse(x.test), applies_))
                     break
             for k, applies in kinds:
                 ctx.ob(R, t.rel, f"update_from_builtin [{k[:60]}]: the value is applied (set_attribute / recursive update)", applies, "", lp.lineno)
@@ -604,7 +623,7 @@ def rule_builtin(ctx, ts):
         else:
             ctx.ob(R, t.rel, "update_from_builtin: kind dispatch on the field type", False, f"{len(chain)} dispatch statements", lp.lineno)
         after = up.body[up.body.index(lp) + 1:]
-        ok = any(isinstance(x, ast.If) and ast.unparse(x.test) == src and any(isinstance(r, ast.Raise) and "ValueError" in ast.unparse(r) for r in ast.walk(x)) for x in after)
+        ok = any(isinstance(x, ast.If) and ast.unparse(x.test) in srcs and any(isinstance(r, ast.Raise) and "ValueError" in ast.unparse(r) for r in ast.walk(x)) for x in after)
         ctx.ob(R, t.rel, "update_from_builtin: leftover source keys raise ValueError", ok, "", up.lineno)
         # to_builtin: a str is produced for an array exactly under the predicate that makes the generated setter accept a str.
         # The walk may be split over private module-level helpers (one per kind): all of them are judged, each with its own model parameter.
